@@ -133,6 +133,11 @@ func (p *MetadataPersister) UpdateHeaderMetadata(ctx context.Context, dbhdr *con
 	hdr := *idbhdr
 	hdr.Name = p.getSanitizedPath(ctx, idbhdr.Name)
 
+	// A deleted header shares the primary key with a live one; updating must not bring it back
+	if existing, err := models.FindHeader(ctx, p.sqlite.DB, hdr.Name, hdr.Linkname); err == nil && existing.Deleted == 1 {
+		return nil
+	}
+
 	if _, err := hdr.Update(ctx, p.sqlite.DB, boil.Infer()); err != nil {
 		return err
 	}
